@@ -17,6 +17,18 @@ impl AsRef<str> for NS { fn as_ref(&self) -> &str { &self.0 } }
 pub struct NV(pub Vec<i32>);
 impl AsRef<[i32]> for NV { fn as_ref(&self) -> &[i32] { &self.0 } }
 
+/// constants and a unit variant under names that can be written as bare identifier patterns (the integer constants are
+/// `&i32`: the matcher sees `&i32`, and rustc does not auto-dereference for constant patterns)
+#[allow(non_upper_case_globals)]
+pub const three: &i32 = &3;
+pub const SEVEN: &i32 = &7;
+#[allow(non_upper_case_globals)]
+pub const neg_one: &i32 = &-1;
+#[allow(non_upper_case_globals)]
+pub const four: &i32 = &4;
+#[allow(non_camel_case_types, unused_imports)]
+pub use self::E::A as unit_a;
+
 pub fn bit(b: bool) -> char { if b { '1' } else { '0' } }
 
 /// one call on a fresh ordered mock: answered (true) or mock panic (false)
